@@ -78,6 +78,18 @@ func (pipeline *FullSyncPipeline) sync(job *job, ctx context.Context) (int, erro
 		return 0, err
 	}
 	syncJobState.ContinuationToken = ""
+	// A full sync that replays the change feed re-writes old versions into the sink. If it is aborted half way,
+	// the token of earlier runs must not survive it: the next (incremental) run has to start from the beginning,
+	// otherwise the sink keeps the replayed old versions for good.
+	storesToken := pipeline.sink.GetConfig()["Type"] != "HttpDatasetSink" ||
+		(isDatasetSource && dss.LatestOnly) ||
+		pipeline.source.GetConfig()["Type"] == "MultiSource"
+	if storesToken {
+		err = runner.store.StoreObject(server.JobDataIndex, job.id, syncJobState)
+		if err != nil {
+			return 0, err
+		}
+	}
 	entCnt := 0
 	tags := []string{"application:datahub", "job:" + job.title}
 	for keepReading {
